@@ -207,6 +207,18 @@ example : (⟨3, 1, [1, 2, 3]⟩ : Raster Int).eqOp ⟨3, 1, [1, 2, 4]⟩ = fals
     (⟨3, 1, [1, 2, 3]⟩ : Raster Int).eqOp ⟨1, 3, [1, 2, 3]⟩ = false ∧
     (⟨1, 3, [1, 2, 3]⟩ : Raster Int).neOp ⟨1, 3, [1, 2, 3]⟩ = false := by decide
 
+/-- Consequence for callers that use `==` as an equivalence (e.g. to detect a fixed point of a
+    run): on well-formed rasters `==` is reflexive, symmetric and transitive, for every shape. -/
+theorem C19_eq_equivalence {α : Type} [DecidableEq α] (a b c : Raster α) (ha : a.WF) (hb : b.WF) (hc : c.WF) :
+    a.eqOp a = true ∧ (a.eqOp b = true → b.eqOp a = true) ∧
+    (a.eqOp b = true → b.eqOp c = true → a.eqOp c = true) := by
+  refine ⟨(eqOp_iff a a ha ha).mpr ⟨rfl, rfl, rfl⟩, fun h => ?_, fun h1 h2 => ?_⟩
+  · obtain ⟨h1, h2, h3⟩ := (eqOp_iff a b ha hb).mp h
+    exact (eqOp_iff b a hb ha).mpr ⟨h1.symm, h2.symm, h3.symm⟩
+  · obtain ⟨p1, p2, p3⟩ := (eqOp_iff a b ha hb).mp h1
+    obtain ⟨q1, q2, q3⟩ := (eqOp_iff b c hb hc).mp h2
+    exact (eqOp_iff a c ha hc).mpr ⟨p1.trans q1, p2.trans q2, p3.trans q3⟩
+
 /-! ## Part B: storage, over every sequence of operations -/
 
 /-- No run from the initial state (any caller arrays, any operation list) ends in a fault other
